@@ -55,6 +55,11 @@ func (t *tr) closure(fl *ast.FuncLit) string {
 	}
 	isErr := func(f *ast.Field) bool { return exprString(f.Type) == "error" && len(f.Names) <= 1 }
 	switch {
+	case len(results) == 0 && !hasWriter && sp.ClosureState != "" && containsStr(names, t.ident(sp.ClosureState)):
+		// (C14) the closure's effect is the final value of the parameter it mutates
+		st := t.ident(sp.ClosureState)
+		sp.Ret, sp.RetParam = RetVal, sp.ClosureState
+		k = func() string { return st }
 	case len(results) == 0:
 		if !hasWriter {
 			return t.bad("closure without result and without the response writer", fl)
@@ -113,4 +118,13 @@ func (t *tr) ifCommaOk(x *ast.IfStmt, cont cont) (string, bool) {
 	thenB := t.block(x.Body.List, cont)
 	t.indent--
 	return bind + "(if " + t.ident(okv) + " then\n" + t.pad() + "  " + thenB + "\n" + t.pad() + "else\n" + t.pad() + cont() + ")", true
+}
+
+func containsStr(l []string, x string) bool {
+	for _, y := range l {
+		if y == x {
+			return true
+		}
+	}
+	return false
 }
